@@ -82,7 +82,7 @@ def Ref.next (cfg : Cfg) (r : Ref) (o : Obs) : Ref :=
 
 /-- Nothing is swallowed and nothing is invented: the application gets the answer (or the
     exception) of the last leg contacted; a gateway-side failure falls through to the provider;
-    an application exception does not; and some leg IS contacted (the decision does not raise). -/
+    an application exception does not; and some leg IS contacted (the decision never raises). -/
 def noSwallow (o : Obs) : Bool :=
   match o.out.sent with
   | [.gw] => (o.inp.gw == .ok && o.out.result == .respGw)
@@ -106,42 +106,22 @@ def recovers (cfg : Cfg) (r : Ref) (o : Obs) : Bool :=
 def eventOk (cfg : Cfg) (r : Ref) (o : Obs) : Bool :=
   noSwallow o && cooldownRespected cfg r o && filterRespected cfg o && recovers cfg r o
 
-/-- Class of finding F19a: destinations on which `is_allowed` raises instead of answering — an
-    IPv6 literal, or a name `gethostbyname` rejects with `UnicodeError` — when no header, allow
-    list or block list answers first. -/
-def decisionRaises (cfg : Cfg) (h : Str) (hdr : Hdr) : Bool :=
-  listsUsable cfg && (hdrOverride hdr).isNone && (allowEntries cfg).isNone
-    && !(blockEntries cfg).contains h
-    && ((parseIPv4 h).isNone && isIPv6 h
-        || (!validateIp h && cfg.resolve h == .unicodeErr))
-
-/-- An event of class F19a: breaker closed, decision raised into the application, no leg contacted. -/
-def excused (cfg : Cfg) (r : Ref) (o : Obs) : Bool :=
-  !(r.isOpen cfg o.t) && decisionRaises cfg o.inp.host o.inp.hdr && o.out.sent.isEmpty &&
-  (o.out.result == .raiseDec .addressValue || o.out.result == .raiseDec .unicode)
-
 /-- The property on a history (oldest first) from reference state `r`. -/
 def holdsFrom (cfg : Cfg) : Ref → List Obs → Bool
   | _, [] => true
   | r, o :: rest => eventOk cfg r o && holdsFrom cfg (r.next cfg o) rest
 
-/-- The property with events of class F19a tolerated. -/
-def holdsModuloFrom (cfg : Cfg) : Ref → List Obs → Bool
-  | _, [] => true
-  | r, o :: rest => (eventOk cfg r o || excused cfg r o) && holdsModuloFrom cfg (r.next cfg o) rest
-
 /-- Reference breaker after a history (oldest first). -/
 def refAfter (cfg : Cfg) (h : List Obs) : Ref := h.foldl (Ref.next cfg) Ref.init
 
 def holds (cfg : Cfg) (h : List Obs) : Bool := holdsFrom cfg Ref.init h
-def holdsModulo (cfg : Cfg) (h : List Obs) : Bool := holdsModuloFrom cfg Ref.init h
 
-/-- First offending event, for the judge's message: (index, excused?). -/
-def firstBad (cfg : Cfg) : Ref → Nat → List Obs → Option (Nat × Bool)
+/-- First offending event, for the judge's message. -/
+def firstBad (cfg : Cfg) : Ref → Nat → List Obs → Option (Nat × Ref)
   | _, _, [] => none
   | r, i, o :: rest =>
     if eventOk cfg r o then firstBad cfg (r.next cfg o) (i + 1) rest
-    else some (i, excused cfg r o)
+    else some (i, r)
 
 /-- Configurations the theorems speak about: DNS answers are IPv4 addresses. -/
 def IPv4.wf (ip : IPv4) : Bool :=
